@@ -98,7 +98,7 @@ def run(ctx):
     somes = [bi for bi, blk in enumerate(fv.blocks) for s in blk['s'] if s.get('rv', {}).get('k') == 'agg' and s['rv'].get('variant') == 'Some' and s.get('p', {}).get('l') == 0 and bi in fv.reachable_from(0)]
     ctx.anchor('R27.3', 'Some(..) return of from_value', len(somes) == 1, fv.n)
     for bi in somes:
-      gs = guard_strings(fv, bi)
+      gs = guard_strings(fv, bi, forms=True)
       ctx.ob('R27.3', fv.n, 'Some only for 32 <= len <= 36', 'Lt(slice::len(value),LEN)==False' in gs and 'Gt(slice::len(value),Add(LEN,4))==False' in gs, f'{gs}', where(fv, fv.line))
     nones = [bi for bi, blk in enumerate(fv.blocks) for s in blk['s'] if s.get('rv', {}).get('k') == 'agg' and s['rv'].get('variant') == 'None' and s.get('p', {}).get('l') == 0 and bi in fv.reachable_from(0)]
     tz = [bi for bi in nones if any('Ne(slice::len(' in g and ',4)==True' in g for g in guard_strings(fv, bi)) and any(re.search(r'^Eq\(.*,0\)==True$', g) for g in guard_strings(fv, bi))]
